@@ -533,7 +533,7 @@ Proof.
     destruct I as [[E [F [G [S _]]]]|[E [[r0 [F Er0]] [[_ [G S]]|[X _]]]]]; [| |discriminate X]; subst fi g sh.
     + (* first DKG: the record is epoch 1, there is no previous pair *)
       destruct cp as [k|k]; destruct k as [|[|[|[|[|k]]]]]; simpl in K; try lia;
-        unfold class_prev_destroyed, is_left; simpl; rewrite ?H1; simpl; zdecide; reflexivity.
+        unfold class_prev_destroyed, is_left; simpl; rewrite ?H1, ?H0, ?E; simpl; reflexivity.
     + destruct cp as [k|k]; destruct k as [|[|[|[|[|k]]]]]; simpl in K; try lia;
         unfold class_prev_destroyed, is_left; simpl; rewrite ?H1, ?Er0; simpl;
         rewrite ?andb_false_r; reflexivity.
